@@ -100,7 +100,9 @@ def termination_claimed(check_name, params):
     if check_name == 'c20fs':
         pats, flags = params[0], params[2]
         return True
-    if check_name == 'c18fs':
+    if check_name == 'c07fs':
+        pats, flags = list(params[0]) + list(params[1]), params[2]
+    elif check_name == 'c18fs':
         if params[0] == 'wcmatch':
             return not (params[2] & W.SYMLINKS)
         pats, flags = params[1], params[2]
@@ -717,4 +719,52 @@ def c09fs(root, flags, slots):
         m = _call(G.globmatch, s_, G.escape(s_, unix=True), flags=flags | G.REALPATH, root_dir=root)
         if m is not True:
             viol.append(f'globmatch({s_!r}, escape, REALPATH) = {m}')
+    return {'viol': viol, 'obs': seen}
+
+
+# ---------------------------------------------------------------------------------------------------------
+# C07 (file-system side): with REALPATH, and in glob(), a list with exclusions decomposes into single-pattern REALPATH matches
+
+def c07fs(root, incs, excs, flags, slots):
+    """incs/excs: tuples of single patterns.  The exclusions are evaluated the way the implementation documents them: dot-matching forced,
+    links followed (an exclusion is not a traversal)."""
+    from wcmatch import glob as G
+    viol = []
+    incs, excs = list(incs), list(excs)
+    rf = flags | G.REALPATH
+    ef = flags | G.REALPATH | G.DOTGLOB | G.FOLLOW
+    inline_ok = all(e and not e.startswith('(') for e in excs) and all(not p.startswith('!') or p.startswith('!(') for p in incs)
+    seen = []
+    for cand in slot_candidates(slots):
+        if not os.path.lexists(os.path.join(root, cand)):
+            continue
+        single_i = [_call(G.globmatch, cand, p, flags=rf, root_dir=root) for p in incs]
+        single_e = [_call(G.globmatch, cand, e, flags=ef, root_dir=root) for e in excs]
+        if any(not isinstance(x, bool) for x in single_i + single_e):
+            continue
+        want = any(single_i) and not any(single_e)
+        got = _call(G.globmatch, cand, incs, flags=rf, root_dir=root, exclude=excs or None)
+        seen.append((cand, got))
+        if got is not want:
+            viol.append(f'globmatch({cand!r}, {incs}, exclude={excs}, REALPATH) = {got}; single inclusions {single_i}, single exclusions (DOTGLOB) {single_e}')
+        if inline_ok and excs:
+            got2 = _call(G.globmatch, cand, incs + ['!' + e for e in excs], flags=rf | G.NEGATE, root_dir=root)
+            if got2 is not want:
+                viol.append(f'globmatch({cand!r}, {incs} + negated {excs}, NEGATE|REALPATH) = {got2}; single inclusions {single_i}, single exclusions {single_e}')
+    # the walk: glob(list, exclude=) == the results of the inclusions alone minus what a single exclusion accepts
+    if excs:
+        plain = _call(G.glob, incs, flags=flags, root_dir=root)
+        both = _call(G.glob, incs, flags=flags, root_dir=root, exclude=excs)
+        if isinstance(plain, list) and isinstance(both, list):
+            keep = []
+            for x in plain:
+                ex = [_call(G.globmatch, x, e, flags=ef, root_dir=root) for e in excs]
+                if any(not isinstance(v, bool) for v in ex):
+                    keep = None
+                    break
+                if not any(ex):
+                    keep.append(x)
+            if keep is not None and sorted(keep) != sorted(both):
+                viol.append(f'glob({incs}, exclude={excs}) = {sorted(both)} but inclusions alone give {sorted(plain)} of which single exclusions keep {sorted(keep)}')
+            seen.append(('glob', sorted(both)))
     return {'viol': viol, 'obs': seen}
